@@ -127,6 +127,9 @@ def run(tier):
                 "counting (Sturm), and on every catalogue pair by exact rational evaluation.",
                 trusted_base=["python ast", "hv.kpe", "sympy Poly.count_roots / groebner / reduced", "Brent's method finds a root in a valid bracket",
                               "Legendre generating function"])
+    # nothing computed for one mass ratio may be served for another: caches in the libration services are keyed completely
+    from .. import memo
+    memo.check_modules(chk, "C04.b-memo", [LIB, "hiten.system.libration.base", "hiten.system.libration.collinear", "hiten.system.libration.triangular", "hiten.system.base"], floor=1)
     R = Radicals()
     field = common.crtbp_field()
     x = sp.Symbol("xq", real=True)
